@@ -208,10 +208,28 @@ func (rs *rawSocketPeer) sendHandler() {
 	defer rs.cancelSender()
 
 	senderDone := rs.ctxSender.Done()
+	draining := false
 sendLoop:
 	for {
-		select {
-		case msg := <-rs.wr:
+		var msg wamp.Message
+		if draining {
+			// The peer is being closed: write what was queued before the close,
+			// such as the GOODBYE or ABORT that ends the session, then exit.
+			select {
+			case msg = <-rs.wr:
+			default:
+				return
+			}
+		} else {
+			select {
+			case msg = <-rs.wr:
+			case <-senderDone:
+				draining = true
+				_ = rs.conn.SetWriteDeadline(time.Now().Add(time.Second))
+				continue sendLoop
+			}
+		}
+		{
 			b, err := rs.serializer.Serialize(msg)
 			if err != nil {
 				rs.log.Print(err)
@@ -235,8 +253,6 @@ sendLoop:
 				}
 				continue sendLoop
 			}
-		case <-senderDone:
-			return
 		}
 	}
 }
